@@ -26,6 +26,7 @@ import (
 	"github.com/multiformats/go-multiaddr"
 	"github.com/multiformats/go-multihash"
 
+	"verifharness/internal/chain"
 	"verifharness/internal/ids"
 	"verifharness/internal/lsys"
 	"verifharness/internal/rep"
@@ -181,9 +182,7 @@ func (hs *headServer) afterHead() []string {
 }
 
 func (hs *headServer) maddr() multiaddr.Multiaddr {
-	u := strings.TrimPrefix(hs.srv.URL, "http://")
-	hp := strings.Split(u, ":")
-	return multiaddr.StringCast("/ip4/" + hp[0] + "/tcp/" + hp[1] + "/http")
+	return chain.HTTPAddr(hs.srv.URL)
 }
 
 func mkLinkSystem() ipld.LinkSystem { return lsys.NewStore().LinkSystem() }
